@@ -68,7 +68,6 @@ func vfC26Check(pfx string, res []serf.Member, err error, valid, want bool, m se
 //vf:bound inputs pattern from a family of 22 (16 valid incl. alternations, classes, repetition, empty alternatives; 6 invalid); member name: any ASCII string of length 0..3
 //vf:stub regexp: patterns compiled by the real regexp/syntax; MatchString on symbolic subjects encoded exactly (NFA simulation over the bounded byte string)
 //vf:outside symbolic patterns; non-ASCII subjects; subjects longer than the bound
-//vf:nonative
 func VfC26_Name() {
 	i := &AgentIPC{}
 	pat := vfC26Patterns[vfChoice("pat", len(vfC26Patterns))]
@@ -82,7 +81,6 @@ func VfC26_Name() {
 //
 //vf:unwind 12
 //vf:bound inputs pattern from {alive, left|failed, alive|left, a.*, .*ing, l, failed|, (, "" (no filter)}; status any of the 5
-//vf:nonative
 func VfC26_Status() {
 	i := &AgentIPC{}
 	pats := [...]string{"alive", "left|failed", "alive|left", "a.*", ".*ing", "l", "failed|", "(", ""}
@@ -101,7 +99,6 @@ func VfC26_Status() {
 //
 //vf:unwind 12
 //vf:bound inputs pattern family as VfC26_Name plus the empty pattern; tag present with any ASCII value of length 0..2, or absent
-//vf:nonative
 func VfC26_Tag() {
 	i := &AgentIPC{}
 	k := vfChoice("pat", len(vfC26Patterns)+1)
@@ -125,7 +122,6 @@ func VfC26_Tag() {
 //
 //vf:unwind 12
 //vf:bound inputs 2 members (names of 1 symbolic ASCII byte, statuses from {alive,failed}, tag value 1 symbolic byte or absent); name pattern from {a|b, "" (none)}, status pattern from {alive|left, ""}, tag pattern from {[ab]+, none}
-//vf:nonative
 func VfC26_All() {
 	i := &AgentIPC{}
 	namePat, statusPat := "", ""
